@@ -8,10 +8,10 @@ VARIABLES sched, kind0
 SimInit == \E kind \in InitKinds : InitFor(kind) /\ kind0 = kind /\ sched = <<>>
 SimNext == \E t \in Threads :
              /\ \/ LoadHashed(t) \/ LoadHash(t) \/ StoreHash(t) \/ StoreHashed(t)
-                \/ CloneLoadHashed(t) \/ CloneLoadHash(t) \/ CloneGetHash(t)
+                \/ CloneLoadHashed(t) \/ CloneLoadHash(t) \/ CloneGetHash(t) \/ CompareAsCoded(t)
              /\ sched' = Append(sched, <<t, pc[t]>>)
              /\ UNCHANGED kind0
 SimSpec == SimInit /\ [][SimNext]_<<vars, sched, kind0>>
 Emit == Done => PrintT(<<"REPLAY", ToJson([getters |-> Cardinality(Getters), cloners |-> Cardinality(Cloners),
-                                             calls |-> NCalls, init |-> kind0, sched |-> sched])>>)
+                                             comparers |-> Cardinality(Comparers), calls |-> NCalls, init |-> kind0, sched |-> sched])>>)
 =============================================================================
